@@ -21,6 +21,7 @@ From FB.Spec Require Import JsonSpec.
 From FB.Model Require Import Types SimpleOps Persist PersistSpec.
 From FB.Proofs Require Import JsonLaws PersistLaws CacheRTDefs CacheRTLaws CacheRTTables CacheRTCycle CacheRTForest CacheRTMain.
 From Coq Require Import Permutation.
+From FB.Proofs Require CacheGenLaws.   (* T1g: the model routines are equal to the translation of the source (Gen/CacheGen.v) *)
 Import ListNotations.
 
 Theorem C16_cache_roundtrip : forall c roots, writable c roots ->
